@@ -59,10 +59,6 @@ Print Assumptions C10_legacy_load.
    look-alike, the header look-alike, a blank and multi-byte characters *)
 Definition ex_entries : list str :=
   [[97; 10; 98]; [99; 13]; [92; 110]; [35; 86; 50]; [32; 233]; [26085; 128512]]%N.
-Definition ex_U : UData :=
-  Build_UData (fun c => N.eqb c 32) (fun _ => false) (fun _ => false) (fun _ => false)
-              (fun _ => false) (fun _ => false) (fun c => [c]) (fun c => [c]) (fun _ => 1)
-              (fun _ => GC_Any) (fun _ => false) (fun _ => false).
 Example C10_example_roundtrip :
   match load_from ex_U (f_new_cfg 10 false true) (save_bytes ex_entries) with
   | LOk f _ => f_entries f = ex_entries
